@@ -35,6 +35,17 @@ def rule_accounting(ctx: Ctx) -> None:
     lp = lps[0]
     cur = U(lp.node.target)
     ctx.require(S(lp.text) == "cur_object_results", f"_calculate_tp_fp iterates `{lp.text}`")
+    # the accounting is read off the scan over the previous frame written in this function (flags carried through the unrolled inner loop); when that scan lives
+    # in an extracted helper that reports its outcome through a returned tuple, the flag reasoning below does not apply - not recognised rather than guessed
+    moved = set()
+    for bp in lp.body:
+        for e in bp.all_effects():
+            if e.kind == "inline":
+                cf = ctx.index.functions.get(e.text)
+                if cf is not None and any(isinstance(x, (ast.For, ast.While)) for x in ast.walk(cf.node)):
+                    moved.add(e.name)
+    moved = sorted(moved)
+    ctx.require(not moved, f"_calculate_tp_fp: the scan over the previous frame's results was moved into {moved}; this form of the accounting is not recognised")
     n = 0
     kinds = set()
     for bp in lp.body:
@@ -219,14 +230,19 @@ def rule_history(ctx: Ctx) -> None:
     ctx.require(len(lps) == 1, "CLEAR.__init__: expected one loop over the history")
     lp = lps[0]
     it = S(lp.text)
-    running = it == "object_results[1:]" and isinstance(lp.node.target, ast.Name)
-    if not running:
+    running = it in ("object_results[1:]", "iter(object_results)") and isinstance(lp.node.target, ast.Name)  # (an iterator whose first element was taken as the initial predecessor)
+    zipped = it == "zip(object_results,object_results[1:])" and isinstance(lp.node.target, ast.Tuple) and len(lp.node.target.elts) == 2  # (previous, current) pairs of consecutive frames
+    if not running and not zipped:
+        ctx.require(it.startswith(("enumerate(", "object_results", "range(")), f"CLEAR.__init__: history loop header `{it}` not recognised")
         ctx.check(it == "enumerate(object_results[1:],1)", "C05-history", "CLEAR.__init__", "window",
                   f"the history loop iterates `{it}`; it must visit every frame after the first with its own index (enumerate(object_results[1:], 1))", fi=fi,
                   expected="enumerate(object_results[1:], 1)", found=it)
         if it != "enumerate(object_results[1:],1)":
             return
     ivar, cvar = [U(x) for x in lp.node.target.elts] if isinstance(lp.node.target, ast.Tuple) else ("?", U(lp.node.target))
+    zprev = None
+    if zipped:
+        zprev, cvar, ivar = U(lp.node.target.elts[0]), U(lp.node.target.elts[1]), "?"
     for bp in lp.body:
         calls = find_calls(bp, "_calculate_tp_fp")
         if running and not calls:
@@ -243,12 +259,16 @@ def rule_history(ctx: Ctx) -> None:
         if running:
             pname = strip_v(S(a_prev)) if a_prev is not None else ""
             pre = (lp.pre or {}).get(pname)
-            ok0 = pre is not None and (S(pre) == "object_results[0]" or S(pre).startswith("object_results[0]if"))
+            ok0 = pre is not None and (S(pre) == "object_results[0]" or S(pre).startswith("object_results[0]if") or (it == "iter(object_results)" and S(pre) in ("next(iter(object_results),[])", "next(iter(object_results))")))
             ctx.check(a_cur is not None and S(a_cur) == cvar and isinstance(a_prev, ast.Name) and ok0, "C05-history", "CLEAR.__init__", "pair",
                       f"frame results are paired as (cur={S(a_cur) if a_cur is not None else None}, prev={pname}, initially {S(pre) if pre is not None else None}); the running predecessor must start as object_results[0]", fi=fi)
             adv = bp.env.get(pname)
             ctx.check(adv is not None and S(adv) == cvar, "C05-history", "CLEAR.__init__", f"running-prev:advance:{len(bp.conds)}",
                       f"after handling a frame the running predecessor is `{S(adv) if adv is not None else 'unchanged'}`; it must become the current frame on every path", fi=fi)
+        elif zipped:
+            ok = a_cur is not None and a_prev is not None and S(a_cur) == cvar and S(a_prev) == zprev
+            ctx.check(ok, "C05-history", "CLEAR.__init__", "pair", f"frame results are paired as (cur={S(a_cur) if a_cur is not None else None}, prev={S(a_prev) if a_prev is not None else None}); with "
+                      f"zip(object_results, object_results[1:]) the first element is the predecessor", fi=fi, expected=f"({cvar}, {zprev})", found=f"({S(a_cur) if a_cur is not None else None}, {S(a_prev) if a_prev is not None else None})")
         else:
             ok = a_cur is not None and a_prev is not None and S(a_cur) == cvar and S(a_prev) == f"object_results[{ivar}-1]"
             ctx.check(ok, "C05-history", "CLEAR.__init__", "pair",
